@@ -4,7 +4,11 @@ package main
 
 import (
 	"bytes"
+	"encoding/hex"
+	"fmt"
 	"strings"
+	"sync"
+	"time"
 	"unicode"
 	"unicode/utf8"
 
@@ -343,8 +347,118 @@ func specialRunes() []rune {
 	return out
 }
 
+// ---- the converters and Split under concurrent callers: a pure function gives the same answer whoever else is calling
+
+type convConcCase struct {
+	Inputs []string `json:"inputs"` // hex
+	G      int      `json:"goroutines"`
+}
+
+func (c convConcCase) inputs() []string {
+	var out []string
+	for _, h := range c.Inputs {
+		b, _ := hex.DecodeString(h)
+		out = append(out, string(b))
+	}
+	return out
+}
+
+func c19All(s string) string {
+	var b strings.Builder
+	for _, cv := range converters {
+		b.WriteString(cv.f(s))
+		b.WriteByte(0)
+	}
+	b.WriteString(strings.Join(camelcase.Split(s), "\x01"))
+	return b.String()
+}
+
+func (c convConcCase) Line() string { return "" }
+func (c convConcCase) Run() string {
+	return guard(func() string {
+		in := c.inputs()
+		want := make([]string, len(in))
+		for i, s := range in {
+			want[i] = c19All(s)
+		}
+		bad := make([]int, c.G)
+		panics := make([]string, c.G)
+		var wg sync.WaitGroup
+		start := make(chan struct{})
+		for g := 0; g < c.G; g++ {
+			wg.Add(1)
+			go func(g int) {
+				defer wg.Done()
+				defer func() {
+					if e := recover(); e != nil {
+						panics[g] = fmt.Sprint(e)
+					}
+				}()
+				<-start
+				for round := 0; round < 40; round++ {
+					for i := range in {
+						j := (i*5 + g*3 + round) % len(in)
+						if c19All(in[j]) != want[j] {
+							bad[g]++
+						}
+					}
+				}
+			}(g)
+		}
+		close(start)
+		done := make(chan struct{})
+		go func() { wg.Wait(); close(done) }()
+		select {
+		case <-done:
+		case <-time.After(90 * time.Second):
+			return "hang: concurrent converter calls did not return within 90 s"
+		}
+		n := 0
+		for g := range bad {
+			if panics[g] != "" {
+				return "panic: " + panics[g]
+			}
+			n += bad[g]
+		}
+		return fmt.Sprintf("ok mismatches=%d", n)
+	})
+}
+func (c convConcCase) Oracle(out string) string {
+	if out != "ok mismatches=0" {
+		return "with " + fmt.Sprint(c.G) + " concurrent callers the converters / Split answered differently from a single caller: " + out
+	}
+	return ""
+}
+func (c convConcCase) Shrinks() []Case {
+	var out []Case
+	if c.G > 2 {
+		out = append(out, convConcCase{c.Inputs, c.G / 2})
+	}
+	if len(c.Inputs) > 1 {
+		out = append(out, convConcCase{c.Inputs[:len(c.Inputs)/2], c.G})
+	}
+	return out
+}
+func (c convConcCase) Key() string       { return fmt.Sprintf("%d goroutines × %d inputs", c.G, len(c.Inputs)) }
+func (c convConcCase) Classes() []string { return []string{fmt.Sprintf("goroutines:%d", c.G)} }
+func (c convConcCase) Nontrivial() bool  { return true }
+
 func init() {
 	register(&Property{ID: "C19", Streams: []*Stream{
+		{
+			Name: "concurrent", Quick: 24, Thorough: 240,
+			New: func() Case { return &convConcCase{} },
+			Gen: func(r *Rng, i int) Case {
+				c := convConcCase{G: Pick(r, []int{2, 8, 32})}
+				for n := 4 + r.Intn(12); n > 0; n-- {
+					c.Inputs = append(c.Inputs, hex.EncodeToString(genC19Bytes(r)))
+				}
+				c.Inputs = append(c.Inputs, hex.EncodeToString([]byte("maxHTTPValueID")), hex.EncodeToString([]byte("user_id-Name")))
+				return c
+			},
+			ShrinkBudget: 6, MaxShrinks: 3,
+			Rule: "2/8/32 goroutines released together, each calling the six converters and Split 40 times on 6–18 inputs in different orders; every answer compared with the one a single caller got beforehand; a hang (90 s) or a panic is a failure; a sample of schedules, not an enumeration",
+		},
 		{
 			Name: "convert-unicode", New: func() Case { return &convCase{} },
 			Enum: func(tier string, yield func(Case)) {
